@@ -1069,7 +1069,8 @@ func (vc *VC) trCall(x *ECall, env *Env) TV {
 			return vc.errTV("fnis: no function named %s", nm)
 		}
 		vc.heapKeySort("#fnid", types.Typ[types.Int])
-		return TV{T: B, S: eq(vc.envHeapRead(env, "#fnid", types.Typ[types.Int], a.S), vc.ar.ix(int64(id)))}
+		// either a closure made from that function, or the function itself used as a value
+		return TV{T: B, S: or(eq(vc.envHeapRead(env, "#fnid", types.Typ[types.Int], a.S), vc.ar.ix(int64(id))), eq(a.S, sx("lroot", fmt.Sprintf("(- %d)", id))))}
 	case "waitedfor":
 		// waitedfor(ch): this activation has completed a blocking receive from ch
 		a := vc.tr(x.Args[0], env)
